@@ -26,7 +26,10 @@ def run(rep):
              ('sqlparse.engine.statement_splitter.StatementSplitter._change_splitlevel', 'total'),
              ('sqlparse.filters.tokens._CaseFilter.process', 'KeywordCaseFilter'),
              ('sqlparse.filters.tokens.IdentifierCaseFilter.process', None),
-             ('sqlparse.filters.tokens.TruncateStringFilter.process', None)] + tc.NAV_FUNCS + \
+             ('sqlparse.filters.tokens.TruncateStringFilter.process', None),
+             ('sqlparse.filters.others.StripWhitespaceFilter.process', 'body'),
+             ('sqlparse.sql.TokenList.get_parent_name', None), ('sqlparse.utils.remove_quotes', None),
+             ('sqlparse.utils.remove_quotes', 'None')] + tc.NAV_FUNCS + \
             [(tc.GT, 'new group'), (tc.GT, 'extend flag')] + tc.MATCHER_FUNCS + tc.PASS_FUNCS
     return generic.run_generic(
         rep, funcs, structural=[validation_dominates, rec],
